@@ -41,8 +41,15 @@ pub fn main(args: Vec<String>) -> i32 {
             let tier = if args.get(3).map(|s| s.as_str()) == Some("thorough") { Tier::Thorough } else if args.get(3).map(|s| s.as_str()) == Some("quick") { Tier::Quick } else { tier };
             check(&prop, tier)
         },
-        "worker" => worker(&args[2..]),
-        "runplan" => runplan(&args[2]),
+        "worker" => {
+            crate::alloc::set_caps(1 << 30, 512 << 20);
+            worker(&args[2..])
+        },
+        "runplan" => {
+            let mb: usize = std::env::var("SCALESIM_CAP_MB").ok().and_then(|s| s.parse().ok()).unwrap_or(1024);
+            crate::alloc::set_caps(mb << 20, (mb << 20) / 2);
+            runplan(&args[2])
+        },
         "replay" => replay(&args[2]),
         "selftest" => selftest(),
         "list" => {
@@ -159,19 +166,31 @@ static PLAN_COUNTER: std::sync::atomic::AtomicU64 = std::sync::atomic::AtomicU64
 
 /// Runs a plan in a fresh child process (crash / abort / hang isolation).
 fn run_plan_in_child(plan: &Plan, timeout: Duration) -> ChildOutcome {
+    run_plan_in_child_caps(plan, timeout, None)
+}
+
+fn run_plan_in_child_caps(plan: &Plan, timeout: Duration, cap_mb: Option<u64>) -> ChildOutcome {
     let n = PLAN_COUNTER.fetch_add(1, std::sync::atomic::Ordering::Relaxed);
     let f = run_dir().join(format!("plan-{}-{}.json", std::process::id(), n));
     if std::fs::write(&f, serde_json::to_vec(plan).unwrap()).is_err() {
         return ChildOutcome::HarnessError("cannot write plan file".into());
     }
-    let r = run_file_in_child(&f, timeout);
+    let r = run_file_in_child_caps(&f, timeout, cap_mb);
     let _ = std::fs::remove_file(&f);
     r
 }
 
 fn run_file_in_child(f: &std::path::Path, timeout: Duration) -> ChildOutcome {
+    run_file_in_child_caps(f, timeout, None)
+}
+
+fn run_file_in_child_caps(f: &std::path::Path, timeout: Duration, cap_mb: Option<u64>) -> ChildOutcome {
     let exe = std::env::current_exe().unwrap();
-    let mut child = match Command::new(exe).arg("runplan").arg(f).stdout(Stdio::piped()).stderr(Stdio::piped()).spawn() {
+    let mut cmd = Command::new(exe);
+    if let Some(mb) = cap_mb {
+        cmd.env("SCALESIM_CAP_MB", mb.to_string());
+    }
+    let mut child = match cmd.arg("runplan").arg(f).stdout(Stdio::piped()).stderr(Stdio::piped()).spawn() {
         Ok(c) => c,
         Err(e) => return ChildOutcome::HarnessError(format!("spawn: {e}")),
     };
@@ -422,13 +441,32 @@ fn run_scenario(sc: &dyn Scenario, tier: Tier, seed: u64, nworkers: u64) -> Scen
             },
         }
     }
-    // Isolated cases: each in its own supervised process.
+    // Isolated cases: each in its own supervised process (16 at a time), with a lower
+    // allocation cap so that exhaustion is detected quickly.
     isolated.sort();
-    for idx in isolated {
+    let results: Mutex<Vec<(u64, ChildOutcome)>> = Mutex::new(Vec::new());
+    let next = std::sync::atomic::AtomicUsize::new(0);
+    std::thread::scope(|scope| {
+        for _ in 0..nworkers.min(isolated.len() as u64) {
+            scope.spawn(|| loop {
+                let i = next.fetch_add(1, std::sync::atomic::Ordering::Relaxed);
+                if i >= isolated.len() {
+                    break;
+                }
+                let idx = isolated[i];
+                let plan = sc.gen(seed, idx, tier);
+                let o = run_plan_in_child_caps(&plan, Duration::from_secs(600), Some(256));
+                results.lock().unwrap().push((idx, o));
+            });
+        }
+    });
+    let mut results = results.into_inner().unwrap();
+    results.sort_by_key(|r| r.0);
+    for (idx, o) in results {
         let plan = sc.gen(seed, idx, tier);
         stats.evaluations += 1;
         stats.probe("isolated_cases");
-        match run_plan_in_child(&plan, Duration::from_secs(600)) {
+        match o {
             ChildOutcome::Pass => {},
             ChildOutcome::HarnessError(e) => harness_error = Some(e),
             o => {
@@ -505,13 +543,13 @@ fn check(prop: &str, tier: Tier) -> i32 {
             // minimise
             let class = fv.class.clone();
             let (minplan, steps) = if is_crash_class(&class) {
-                let mut test = |p: &Plan| outcome_class(&run_plan_in_child(p, Duration::from_secs(120)));
+                let mut test = |p: &Plan| outcome_class(&run_plan_in_child_caps(p, Duration::from_secs(120), Some(256)));
                 // confirm first
                 if test(&fv.plan).as_deref() != Some(class.as_str()) {
                     eprintln!("HARNESS-ERROR: crash of case {} did not reproduce in a fresh process", fv.case);
                     return 2;
                 }
-                minimise(&fv.plan, &class, &mut test, 150)
+                minimise(&fv.plan, &class, &mut test, 40)
             } else {
                 let mut test = |p: &Plan| in_process_test(*sc, p);
                 minimise(&fv.plan, &class, &mut test, 3000)
